@@ -66,6 +66,9 @@ def try_call(it, f, args, kwargs, node):
     r_ = fs_call(it, f, args, kwargs, node)
     if r_ is not NotImplemented:
         return r_
+    r_ = config_call(it, f, args, kwargs, node)
+    if r_ is not NotImplemented:
+        return r_
     if f is _time.time:
         it.ctx.notes.setdefault("env", set()).add("A-clock")
         return GhostClockValue(it)
@@ -302,3 +305,62 @@ def fs_call(it, f, args, kwargs, node):
             fs["log"].append(("create", name))
         return GhostFile(fs, name)
     return NotImplemented
+
+
+# ------------------------------------------------------------------------------------------- configuration (C20)
+
+class GhostConfigFile(E.GhostObj):
+    def __init__(self, kind):
+        self.kind = kind
+
+
+def config_call(it, f, args, kwargs, node):
+    """os.path.exists / open / json.load / tomllib.load of Config.load_config against the ghost config directory."""
+    import builtins
+    import json
+    import os
+    cfg = it.ctx.ghost.get("cfgdir")
+    if cfg is None:
+        return NotImplemented
+    if f is os.path.exists:
+        base = os.path.basename(args[0])
+        if base == "config.toml":
+            return cfg["toml"] is not None
+        if base == "config.json":
+            return cfg["json"] is not None
+        raise Unsupported(f"exists({args[0]!r}) outside the modelled configuration directory")
+    if f is builtins.open:
+        base = os.path.basename(args[0])
+        mode = args[1] if len(args) > 1 else kwargs.get("mode", "r")
+        if "w" in mode or "a" in mode or "+" in mode:
+            raise E.FrameViolation(f"open({base!r}, {mode!r}): configuration files are only read")
+        if base == "config.toml" and cfg["toml"] is not None:
+            return GhostConfigFile("toml")
+        if base == "config.json" and cfg["json"] is not None:
+            return GhostConfigFile("json")
+        it.raise_(FileNotFoundError, node)
+    if f is json.load and isinstance(args[0], GhostConfigFile):
+        if args[0].kind != "json":
+            it.raise_(ValueError, node)
+        return dict(cfg["json"])
+    try:
+        import tomllib
+        if f is tomllib.load and isinstance(args[0], GhostConfigFile):
+            if args[0].kind != "toml":
+                it.raise_(ValueError, node)
+            return dict(cfg["toml"])
+    except ImportError:
+        pass
+    return NotImplemented
+
+
+def effective_config(it, args, kwargs, node):
+    import bits.config as bc
+    a, fj, ft, e = args
+    it.ctx.ghost["cfgdir"] = {"json": fj, "toml": ft}
+    it.ctx.notes.setdefault("env", set()).add("A-fs")
+    rec = GhostRecord(bc.Config, {})
+    it.call(bc.Config.__init__, [rec], dict(a), node)
+    it.call(bc.Config.load_config, [rec, "<configdir>"], {}, node)
+    it.call(bc.Config.update, [rec], dict(e), node)
+    return dict(rec.fields)
